@@ -214,6 +214,28 @@ pub const PROPS: &[PropSpec] = &[
         thorough_runs: 200_000,
         rule: "register / re-register / unregister / failing-trigger / invalid-script events on 2 names x 1-3 contexts; in some runs the handler's start-up is split at the points before it subscribes and before it announces, and a watching client appends a trigger the moment <name>.registered is visible; oracle: lifecycle frames per instance (one registered or one unregistered+error; at most one unregistered; nothing after it), no trigger answered by two instances of a name, every trigger appended after .registered was visible is processed; non-trivial = a registration plus a stop / invalid script / watched start happened; distinct = distinct decision-sequence hash",
     },
+    PropSpec {
+        id: "C18",
+        engine: "e5",
+        mix: &[],
+        classes: &["gen/", "service/panic"],
+        nontrivial: &[&["gen:lifecycle-checked", "gen:refusal-checked"]],
+        must_reach: &["gen:spawned", "gen:refused", "gen:lifecycle-checked", "gen:refusal-checked", "gen:restarted-after-stop", "gen:send", "gen:duplex-checked", "site:gen.begin", "site:gen.input"],
+        quick_runs: 3000,
+        thorough_runs: 150_000,
+        rule: "generator expressions producing 0..k strings as a single value, a list value and a stream, duplex echo generators, spawns with missing content / for a running name / for the same name in another context, .send frames interleaved with other traffic, simulated seconds so that several lifecycles happen; generator worker threads are scheduled actors (duplex input is polled cooperatively); oracle per spawn on the append log: (start recv* stop)+ with the produced strings in order, one spawn.error for a refused spawn, restart after a stop, sends echoed exactly once in order; non-trivial = a lifecycle or refusal was checked; distinct = distinct decision-sequence hash",
+    },
+    PropSpec {
+        id: "C19",
+        engine: "e5",
+        mix: &[],
+        classes: &["cmd/", "service/panic"],
+        nontrivial: &[&["cmd:call-checked"]],
+        must_reach: &["cmd:defined", "cmd:invalid-define", "cmd:invalid-reported", "cmd:call", "cmd:call-undefined", "cmd:overlapping-calls", "cmd:call-checked", "cmd:error-checked", "site:cmd.begin"],
+        quick_runs: 3000,
+        thorough_runs: 150_000,
+        rule: "command definitions yielding 0..3 values of mixed types, explicit .append inside, a runtime error at a chosen output position, custom suffix / ttl, invalid definitions; define / redefine / call sequences on 2 names x 1-3 contexts, bursts of 2-4 overlapping calls whose blocking closures are scheduled actors; oracle per call on the append log: recv* in order then exactly one complete, or exactly one error; stamps = latest valid definition of the caller's context + call id; no environment leak between calls; no call executed twice; non-trivial = a call was checked; distinct = distinct decision-sequence hash",
+    },
 ];
 
 pub fn spec(prop: &str) -> Option<&'static PropSpec> {
